@@ -299,6 +299,9 @@ func checkSimCommon(sc *Scenario, sim *Sim, res *RunResult) {
 	if sim.SetupStalls > 0 {
 		res.fault("F3_setup_stall")
 	}
+	if sim.TimerFireStalls > 0 {
+		res.fault("F3_timer_descheduled_before_firing")
+	}
 	res.count("stale_timer_fires", int64(len(sim.StaleFires)))
 	if sim.StallsHit > 0 {
 		res.fault("F3_stall")
